@@ -46,6 +46,10 @@ cfg("MC_exec_merge.cfg", exec_consts(FieldAlpha="<- AlphaMerge", Aliases='= {""}
 cfg("MC_exec_merge2.cfg", exec_consts(FieldAlpha="<- AlphaMerge2", Aliases='= {""}', Conds='= {"T"}', MaxFrags="= 1", MaxSel="= 5", MaxDepth="= 3", MaxOverlay="= 0"), EXEC_INV)
 cfg("MC_exec_mutargs.cfg", exec_consts(FieldAlpha="<- AlphaMutArgs", OpTypes='= {"mutation"}', Aliases='= {"", "z"}', ArgOpts="<- ArgOptsFew", MaxSel="= 4", MaxOverlay="= 0"), EXEC_INV)
 cfg("MC_exec_fragvar.cfg", exec_consts(FieldAlpha="<- AlphaFragVar", Aliases='= {""}', Conds='= {"T"}', MaxFrags="= 2", DirOpts="<- DirsVarOnly", MaxSel="= 4", MaxOverlay="= 0"), EXEC_INV)
+S2 = dict(Types="<- TypesExec2", Roots="<- RootsExec2", VarTypes="<- VarTypesS2", VarVals="<- VarValsS2", ArgOpts="<- ArgOptsS2")
+cfg("MC_exec_s2.cfg", exec_consts(FieldAlpha="<- AlphaS2", Aliases='= {""}', Conds='= {"", "Leaf", "Branch", "Node"}', MaxSel="= 4", MaxOverlay="= 1", **S2), EXEC_INV)
+cfg("MC_exec_s2g.cfg", exec_consts(FieldAlpha="<- AlphaS2G", Aliases='= {"", "z"}', Conds='= {"", "Leaf"}', MaxSel="= 3", MaxOverlay="= 1", **S2), EXEC_INV)
+cfg("MC_exec_s2m.cfg", exec_consts(FieldAlpha="<- AlphaS2M", OpTypes='= {"mutation"}', Aliases='= {"", "z"}', MaxSel="= 3", MaxOverlay="= 0", **S2), EXEC_INV)
 # thorough
 cfg("MC_exec_basic5.cfg", exec_consts(MaxSel="= 5", MaxOverlay="= 0"), EXEC_INV)
 cfg("MC_exec_abstract5.cfg", exec_consts(FieldAlpha="<- AlphaAbstract", Aliases='= {""}', Conds='= {"", "A", "B", "P", "C"}', MaxSel="= 5", MaxOverlay="= 0"), EXEC_INV)
@@ -65,6 +69,8 @@ cfg("MC_faults_abstract.cfg", fault_consts(FieldAlpha="<- AlphaAbstractF", Alias
 cfg("MC_faults_pairs.cfg", fault_consts(FieldAlpha="<- AlphaPairs", Aliases='= {"", "z"}', MaxFaults="= 2", MaxSel="= 3"), FAULT_INV, spec="SpecF")
 cfg("MC_faults_mut.cfg", fault_consts(FieldAlpha="<- AlphaMutF", OpTypes='= {"mutation"}', Aliases='= {""}', MaxFaults="= 2", MaxSel="= 3"), FAULT_INV, spec="SpecF")
 cfg("MC_faults_args.cfg", fault_consts(FieldAlpha="<- AlphaArgsF", ArgOpts="<- ArgOptsFail", Aliases='= {"", "z"}', MaxFaults="= 1", MaxSel="= 3"), FAULT_INV, spec="SpecF")
+cfg("MC_faults_s2.cfg", fault_consts(FieldAlpha="<- AlphaS2", Aliases='= {""}', Conds='= {"", "Leaf"}', MaxFaults="= 1", MaxSel="= 3", **S2), FAULT_INV, spec="SpecF")
+cfg("MC_faults_s2g.cfg", fault_consts(FieldAlpha="<- AlphaS2G", Aliases='= {""}', MaxFaults="= 2", MaxSel="= 2", **S2), FAULT_INV, spec="SpecF")
 cfg("MC_faults_layout3.cfg", fault_consts(FieldAlpha="<- AlphaLayout", Aliases='= {""}', MaxFaults="= 2", MaxSel="= 3"), FAULT_INV, spec="SpecF")
 cfg("MC_faults_nested4.cfg", fault_consts(FieldAlpha="<- AlphaNested", Aliases='= {""}', MaxFaults="= 2", MaxSel="= 4"), FAULT_INV, spec="SpecF")
 
